@@ -308,6 +308,11 @@ def run_harness(stream, cases, workdir, jobs=NPROC, timeout=900, binary=None, ex
     with ThreadPoolExecutor(max_workers=jobs) as ex:
         for out in ex.map(run_shard, enumerate(shards)):
             res.update(out)
+    # a compilation that fails WITHOUT any diagnostic is neither "accepted" nor "rejected with codes": no check may
+    # read it as either (property C02 names it; every other check reports it as an implementation failure)
+    for cid, f in res.items():
+        if f and (f[0] == "err codes=[]" or f[0].startswith("err codes=[] ")):
+            f[0] = "silent-failure" + f[0][len("err codes=[]"):]
     return res
 
 
@@ -384,6 +389,7 @@ def failure_key(verdict):
     if first.startswith("crash:") and "stack overflow" in verdict: return "impl-failure:stack-overflow"
     if first.startswith("crash:") and "Linking globals named" in verdict and "symbol multiply defined" in verdict:
         return "impl-failure:llvm-link:symbol-multiply-defined"      # LLVM's linker prints this and ends the process
+    if first == "silent-failure": return "impl-failure:silent-failure"
     if first.startswith("internal-error:"): return "impl-failure:" + first[:70]
     m = re.match(r"panic@(.*):(\d+)$", first)
     if m: return "impl-failure:panic@" + panic_site(m.group(1), int(m.group(2)))
